@@ -545,6 +545,9 @@ def recursion(P, rep, reach, g=None):
                     need, okt, whyt = text_growth_bounded(P, comp)
                     if need:
                         rep.ob("C16.volume|%s|text" % "+".join(comp), okt, "cycle %s: %s" % (name, whyt) if okt else "cycle %s: %s" % (name, whyt))
+                    need, okx, whyx = text_total_bounded(P, comp)
+                    if need:
+                        rep.ob("C16.volume|%s|text-total" % "+".join(comp), okx, "cycle %s: %s" % (name, whyx))
                     need, okv, whyv = volume_budget(P, comp)
                     if need:
                         rep.ob("C16.volume|%s" % "+".join(comp), okv,
@@ -594,11 +597,12 @@ def volume_budget(P, comp):
                 continue
             locs, consts, calls, places = MU.backward_slice(b, t["args"][1:2])
             names = [MU.callee_names(c)[1] for c in calls]
-            sized = any(re.search(r"(Vec::<T, A>|\[T\]>|String|str>)::len$", n) for n in names)
+            sized = any(re.search(r"(Vec::<T, A>|\[T\]>|String|str>)::len$|Iterator::(count|sum)$", n) for n in names)
             if not sized:
-                # the size may be taken inside a closure handed to a combinator (map_or(0, |body| body.len()))
+                # the size may be taken inside a closure handed to a combinator (map_or(0, |body| body.len()), or a count of some of
+                # the elements)
                 for k2 in P.body:
-                    if k2.startswith(k + "::{closure") and any(re.search(r"::len$", MU.callee_names(t2)[1]) for _, t2, _, _ in P.call_sites(k2)):
+                    if k2.startswith(k + "::{closure") and any(re.search(r"::len$|Iterator>?::(count|sum)$", MU.callee_names(t2)[1]) for _, t2, _, _ in P.call_sites(k2)):
                         if any(n.endswith(("::map_or", "::map", "::map_or_else", "::and_then")) for n in names):
                             sized = True
             if not sized:
@@ -639,6 +643,44 @@ def text_growth_bounded(P, comp):
                     if any(re.search(r"(String|str>)::len$", MU.callee_names(c)[1]) for c in calls) and bl["term"]["k"] == "switch" and _err_exit_sides(P, k, b, bl, comp if k in comp else [k]):
                         return True, True, "%s compares the length of the text it builds with a constant and fails beyond it" % k.split("::")[-1]
     return True, False, "%s builds text from other text (replace / push_str) for the next round and nothing limits its length: `.macro m / m @0@0 / .endm / m a` doubles the argument with every level" % builders[0].split("::")[-1]
+
+
+def text_total_bounded(P, comp):
+    """Lines and the length of a line bounded each on its own leave their product free.  Where a round builds text, some shared counter
+    must grow with the *bytes* of text of all rounds: a Cell set to a value that a text's len() goes into (directly, or through a
+    parameter of a counting helper that every caller gives a len()), checked against a constant with an error on the failing side.
+    -> (needed, ok, text)"""
+    near = _round_helpers(P, comp)
+    grow = re.compile(r"(str>|String)::(replace|replacen|repeat|push_str|insert_str)$")
+    if not any(grow.search(MU.callee_names(t)[1]) for k in near for _, t, _, _ in P.call_sites(k)):
+        return False, True, ""
+    is_text_len = lambda n: bool(re.search(r"(String|str>)::len$", n))
+    for k in near:
+        b = P.body[k]
+        for bb, t, name, tg in P.call_sites(k):
+            if MU.callee_names(t)[1] != "std::cell::Cell::<T>::set":
+                continue
+            locs, consts, calls, places = MU.backward_slice(b, t["args"][1:2])
+            direct = any(is_text_len(MU.callee_names(c)[1]) for c in calls)
+            params = [l for l in locs if 1 <= l <= b["arg_count"] and P.tys(k, b["locals"][l]["ty"]) == "usize"]
+            through = False
+            for pl in params:
+                sites = [(k2, t2) for k2 in near for _, t2, _, tg2 in P.call_sites(k2) if k in tg2]
+                if sites and all(any(is_text_len(MU.callee_names(c)[1]) for c in MU.backward_slice(P.body[k2], [t2["args"][pl - 1]])[2]) for k2, t2 in sites):
+                    through = True
+            if not (direct or through):
+                continue
+            limited = False
+            for bl in b["blocks"]:
+                for st in bl["stmts"]:
+                    if st["k"] == "assign" and st["rv"]["k"] == "bin" and st["rv"]["op"] in ("Gt", "Ge", "Lt", "Le") and ("const" in st["rv"]["l"]) != ("const" in st["rv"]["r"]):
+                        side = st["rv"]["l"] if "const" in st["rv"]["r"] else st["rv"]["r"]
+                        l2, c2, calls2, p2 = MU.backward_slice(b, [side])
+                        if (set(l2) & set(locs)) and bl["term"]["k"] == "switch" and _err_exit_sides(P, k, b, bl, comp if k in comp else [k]):
+                            limited = True
+            if limited:
+                return True, True, "%s counts the bytes of the text of all rounds in a shared counter and checks it against a constant" % k.split("::")[-1]
+    return True, False, "a round builds text and nothing counts the text of all rounds: 65536 calls that each hand on a 30000-character name stay under the limits of lines and of line length and need 4 GB"
 
 
 def _has_cycle_without(P, comp, k):
@@ -1140,6 +1182,15 @@ def guard_accounts(P, gk, g):
             return x
         return None
 
+    # names: where the grammar has atoms that begin with a name and go on with a parenthesis (function calls), the letters of a name
+    # must not end a run of prefix operators - they are still open when the parenthesis comes
+    call_atoms = any(r["kind"] == "atom" and r["tokens"][:1] == ["("] and r["elems"] and r["elems"][0][1][0] == "call" for r in rows)
+    if call_atoms:
+        tb = arm_of("a")
+        if tb is not None:
+            bad = sorted(resets(arm_blocks(tb)) & prefix_counters)
+            if bad:
+                why.append("the letters of a name set %s back to 0, but a name may be the name of a function whose parenthesis follows (`----low(----low(` ...): the prefix operators in front of it are open as long as that parenthesis is" % ", ".join(bad))
     if blank_allowed:
         for c in (" ", "\t"):
             tb = arm_of(c)
@@ -1565,6 +1616,39 @@ def loops(P, rep, reach, g):
         for node in g.find(r["expr"], lambda n: n[0] == "rep"):
             if g.nullable(node[1]):
                 bad.append(rule)
+    # PEG: a repetition that asks at every character whether something does NOT start there must ask something that looks a bounded way
+    # ahead: `(!comment() [_])*` lets comment() scan to the end of the line from every `/*` and start again one character on - quadratic
+    def scans(node, stack=()):
+        """the node can look arbitrarily far ahead: it holds an unbounded repetition, directly or through a rule it calls"""
+        if node[0] == "rep":
+            return node[3] is None or scans(node[1], stack)
+        if node[0] == "call":
+            if node[1] in stack or node[1] not in g.rules:
+                return False
+            return scans(g.rules[node[1]]["expr"], stack + (node[1],))
+        if node[0] in ("lit", "class", "@", "(@)"):
+            return False
+        if node[0] == "seq":
+            return any(scans(e, stack) for _, e in node[1])
+        if node[0] == "choice":
+            return any(scans(a, stack) for a in node[1])
+        if node[0] in ("slice", "group", "opt", "not", "and"):
+            return scans(node[1], stack)
+        if node[0] == "prec":
+            return True
+        return False
+
+    rescans = []
+    for rule, r in g.rules.items():
+        for node in g.find(r["expr"], lambda n: n[0] == "rep"):
+            body = node[1]
+            while body[0] in ("group", "slice"):
+                body = body[1]
+            els = [e for _, e in body[1]] if body[0] == "seq" else [body]
+            if els and els[0][0] == "not" and scans(els[0][1]):
+                rescans.append(rule)
+    rep.ob("C16.loop|peg-rescan", not rescans, "no grammar repetition asks at every character a question that can scan the rest of the line" if not rescans else
+           "grammar rule(s) %s repeat `!x [_]` with an x that can scan to the end of the line: a line of many unclosed openers is read again from each of them (quadratic: a minute for 63 KB)" % sorted(set(rescans)))
     rep.ob("C16.loop|peg-nullable-repetition", not bad, "no grammar repetition runs over an operand that can match the empty string" if not bad else
            "grammar rule(s) %s repeat a nullable operand: the generated loop would not advance" % sorted(set(bad)))
 
